@@ -163,6 +163,15 @@ pub fn decode(bytes: &[u8], focus: F2, tier: Tier) -> MacroCase {
             fns.push(id);
         }
     }
+    if matches!(focus, F2::C13 | F2::C07 | F2::C05) && d.chance(1, 5) {
+        // a tagged cache bounded by max_memory only: group invalidation followed by re-stores
+        // under memory pressure (the queue must have forgotten the invalidated entries)
+        let mt: Vec<u32> = cands.iter().copied().filter(|id| corpus.by_id(*id).family == "memtag").collect();
+        if !mt.is_empty() {
+            // alone, so that the whole history works on this cache
+            fns = vec![mt[d.choose(mt.len())]];
+        }
+    }
     if focus == F2::C12 && fns.iter().any(|id| corpus.by_id(*id).family == "depg") {
         // a dependency graph is interesting as a whole: take every cache of that graph (mutual
         // pair, chain, self-dependency), in a generated first-use order
@@ -195,7 +204,7 @@ pub fn decode(bytes: &[u8], focus: F2, tier: Tier) -> MacroCase {
         F2::C01 => [16, 3, 2, 1, 1, 0],
         F2::C03 => [20, 0, 0, 0, 0, 0],
         F2::C04 => [18, 2, 1, 0, 2, 0],
-        F2::C05 | F2::C07 => [18, 2, 0, 0, 0, 0],
+        F2::C05 | F2::C07 => [18, 2, 0, 0, 1, 0],
         F2::C08 => [18, 3, 0, 0, 0, 0],
         F2::C06 => [12, 8, 0, 0, 0, 0],
         F2::C09 | F2::C10 => [18, 1, 0, 0, 0, 0],
